@@ -157,12 +157,13 @@ class RevokeStream(Stream):
                         viol("tidy removed the revocation entry of the unexpired certificate #%d" % k, "tidy-removed-unexpired", idx)
                 elif kind == "revoke" and k != target:
                     viol("revoke of #%s rewrote the revocation entry of #%d" % (target, k), "revocation-entry-altered", idx)
-            if kind == "addissuer" and impl.startswith("ok:i"):
+            if kind in ("addissuer", "importissuer") and impl.startswith("ok:i"):
                 live.add(int(impl.split(" ")[0][4:]))
             elif kind == "delissuer" and impl.startswith("ok"):
                 live.discard(int(f[1]))
             elif kind in ("issue", "craft") and impl.startswith("ok:#"):
-                certs[int(impl.split(" ")[0][4:])] = (int(f[1]), f[2] if kind == "issue" else "X")
+                # class L (issued, 1h) and V (externally signed, 1h) stay unexpired for the whole case
+                certs[int(impl.split(" ")[0][4:])] = (int(f[1]), "L" if f[2] == "V" else f[2])
             elif kind == "tick":
                 ticks += 1
                 # 4 s certificates are only treated as unexpired before the first tick
